@@ -137,9 +137,26 @@ def content_root(t):
             t = t[2][0]
         elif t[0] == "op" and t[1] == "mul" and any(x[0] == "lst" and len(x) == 2 for x in t[2:]):
             t = [x for x in t[2:] if x[0] == "lst" and len(x) == 2][0][1]
+        elif t[0] == "lst" and len(t) == 2 and t[1][0] == "star":
+            t = t[1][1]                                         # [*x]
+        elif t[0] == "call" and t[1] == "<ListComp>" and len(t[2]) == 2 and t[2][1] == ("elem", t[2][0]):
+            t = t[2][0]                                         # [c for c in x]
+        elif t[0] == "call" and t[1] == "<ListComp>" and len(t[2]) == 2 and t[2][0][0] == "call" and t[2][0][1] == "range" \
+                and ("elem", t[2][0]) not in _subterms(t[2][1]):
+            t = t[2][1]                                         # [x for _ in range(n)]
         else:
             return t
     return t
+
+
+def _subterms(t, out=None):
+    out = set() if out is None else out
+    if isinstance(t, tuple) and t:
+        out.add(t)
+        for x in (t[2] + tuple(v for _, v in t[3]) if t[0] == "call" else t[1:]):
+            if isinstance(x, tuple):
+                _subterms(x, out)
+    return out
 
 
 def is_nan(t):
@@ -507,12 +524,51 @@ def _frf_minus(ctx):
             ok = a0 is not None and a0[0] == "op" and a0[1] == "abs"
         E, EX = ("attr", mmn, "ext"), ("attr", mmn, "ext_x")
         c0, c1 = ("tup", FULL, ("c", 0)), ("tup", FULL, ("c", 1))
-        st = [(P.norm(e.target), P.norm(e.index), P.norm(e.value), e) for e in P.stores() if e.seq < ex[0].seq]
-        ok1 = any(t == E and i == c1 and v == op("neg", ("idx", E, c0)) for t, i, v, _ in st)
-        ok2 = any(t == EX and i == c1 and v == ("idx", EX, c0) for t, i, v, _ in st)
-        other = [e for t, i, v, e in st if t in (E, EX) and not ((t == E and i == c1 and v == op("neg", ("idx", E, c0))) or (t == EX and i == c1 and v == ("idx", EX, c0)))]
+        # what the two tables hold when extrema() is called: the stores are replayed in order (a value that reads a region written before
+        # is the value written there), so one assignment or several steps (copy the column, then negate it in place) are the same thing
+        final = {}
+        for e in P.stores():
+            if e.seq >= ex[0].seq:
+                continue
+            t, i, v = P.norm(e.target), P.norm(e.index), P.norm(e.value)
+            if t in (E, EX):
+                final[(t, i)] = _signed(_replay(v, final))
+        ok1 = final.get((E, c1)) == (-1, ("idx", E, c0))
+        ok2 = final.get((EX, c1)) == (1, ("idx", EX, c0))
+        other = [k for k in final if k not in ((E, c1), (EX, c1))]
         A.req(key, ok and ok1 and ok2 and not other, ex[0].node, {"mm": show(mmn), "min column": ok1, "min abscissa": ok2})
     A.flush(fn)
+
+
+def _replay(v, final):
+    """v with every read of a region written before replaced by what was written there"""
+    if not isinstance(v, tuple) or not v:
+        return v
+    if v[0] in ("idx", "ld") and (v[1], v[2]) in final:
+        sg, core = final[(v[1], v[2])]
+        return core if sg == 1 else op("neg", core)
+    if v[0] in ("c", "s", "g", "fn"):
+        return v
+    if v[0] == "call":
+        return ("call", v[1], tuple(_replay(x, final) for x in v[2]), tuple((k, _replay(x, final)) for k, x in v[3]))
+    return (v[0],) + tuple(_replay(x, final) if isinstance(x, tuple) else x for x in v[1:])
+
+
+def _signed(v):
+    """(sign, core): -x, x * -1, -1 * x, 0 - x, -(-x) are one value"""
+    sg = 1
+    for _ in range(8):
+        if v[0] == "op" and v[1] == "neg" and len(v) == 3:
+            sg, v = -sg, v[2]
+        elif v[0] == "op" and v[1] in ("mul", "div") and len(v) == 4 and v[3] in (("c", -1), ("c", -1.0)):
+            sg, v = -sg, v[2]
+        elif v[0] == "op" and v[1] == "mul" and len(v) == 4 and v[2] in (("c", -1), ("c", -1.0)):
+            sg, v = -sg, v[3]
+        elif v[0] == "op" and v[1] == "sub" and len(v) == 4 and v[2] in (("c", 0), ("c", 0.0)):
+            sg, v = -sg, v[3]
+        else:
+            break
+    return sg, v
 
 
 # ------------------------------------------------------------------------------------------------------------------------- R2
@@ -585,7 +641,9 @@ def r2_mirror(ctx):
         elif M.canon(P.norm(amx)) in (("call", "np.where", (pv, V2, V1), ()), ("call", "np.where", (op("inv", pv), V1, V2), ())):
             good = True
         else:
-            good = False if (P.obj(amx) is not None and content_root(P.norm(amx)) == V1) else None
+            w = M.canon(P.norm(amx))
+            wrong_where = w[0] == "call" and w[1] == "np.where" and len(w[2]) == 3 and w[2][0] in (pv, op("inv", pv)) and set(w[2][1:]) <= {V1, V2}
+            good = False if (wrong_where or (P.obj(amx) is not None and content_root(P.norm(amx)) == V1)) else None
         if good is not True:
             ok = good if ok is not False else ok
             det = {"returns": show(P.norm(r)), "stores": [(show(P.norm(e.index)), show(P.norm(e.value))) for e in st]}
@@ -736,11 +794,18 @@ def r3_envelope(ctx):
                                                      "higher slots are dropped")
             if f is True:
                 n[True] += 1
-                A.req(k_first, v == cur, e.node, show(v))
+                A.req(k_first, v == cur or content_root(v) == cur, e.node, show(v))
             elif f is False:
                 n[False] += 1
                 old = ("idx", ENV, q)
                 ok = v[0] == "call" and v[1] in ("np.fmax", "np.maximum") and not v[3] and sorted(v[2], key=repr) == sorted((old, cur), key=repr)
+                if not ok:
+                    # provably not the running maximum: the old envelope or the current spectrum is not used, or a minimum is taken;
+                    # any other construction is not understood (analysis error, not a violation)
+                    sub = _subterms(v)
+                    wrong = old not in sub or cur not in sub or (v[0] == "call" and v[1] in ("np.fmin", "np.minimum", "np.fmax", "np.maximum",
+                                                                                              "min", "max", "np.nanmin", "np.nanmax"))
+                    ok = False if wrong else None
                 A.req(k_later, ok, e.node, show(v))
             else:
                 A.req("_compute_srs: the envelope update is chosen by the `first` flag", None, e.node, [show(P.norm(k)) for k, _ in P.fact_order])
